@@ -7,6 +7,15 @@ namespace std {
     verif_sstream& operator<<(std::ostream& (*)(std::ostream&)) { return *this; }
     std::string str() const { verif_sstream_str_used(); return std::string(); }
     void str(const std::string&) {}
+    int precision(int = 0) { return 0; }
+    int width(int = 0) { return 0; }
+    char fill(char = ' ') { return ' '; }
+    void clear() {}
+    bool fail() const { return false; }
+    bool eof() const { return true; }
+    template <class T> verif_sstream& operator>>(T&) { return *this; }
+    void setf(int, int = 0) {}
+    void unsetf(int) {}
   };
 }
 #define stringstream verif_sstream
